@@ -119,7 +119,7 @@ def rule_progress(chk, fb, d):
     rid = chk.rule(
         "C09.a",
         "loop progress: every cycle of a `while counter < bound` loop of the tokenizer passes an assignment that strictly advances the counter",
-        floor=2,
+        floor=1,
     )
     for head, blocks, counter, direction, testb in counter_loops(fb, body, cfg):
         steps = step_blocks(body, counter, direction) & blocks
